@@ -1,4 +1,5 @@
 import Agd.Model.ECS
+import Agd.Model.ECSWire
 import Agd.Driver.Util
 /-! Line-protocol driver for the C05 model (ECS cache path). -/
 namespace Agd.Driver.C05
@@ -170,6 +171,20 @@ def step (s : S) : List String → S × String
       let res := finish s.env s.st (locate s.env ru.1) ru.2
       ({ s with st := res.1 }, showOut res.2)
     | none => (s, "bad-op")
+  -- round 4: option data as octets (decimal, comma-separated; "-" = empty) through decoder, ecsData and echo
+  | ["wire", bs] =>
+    let b : List Nat := if bs == "-" then [] else (bs.splitOn ",").map (nat! ·)
+    (s, match wireAnswer b with
+      | .dropped => "drop"
+      | .formerr => "formerr"
+      | .echo e => "echo " ++ ",".intercalate (e.map toString))
+  -- round 4: the `cache` object of the configuration file through validate / toInternal
+  | ["wiring", t, sz, esz] =>
+    let c : CacheYAML := ⟨nat! t, int! sz, int! esz⟩
+    (s, if !c.valid then "invalid" else match c.kind with
+      | .none => "none"
+      | .simple => s!"simple {c.counts.1}"
+      | .ecs => s!"ecs {c.counts.1} {c.counts.2}")
   | _ => (s, "bad-op")
 
 def main : IO Unit := loop step {}
